@@ -11,6 +11,12 @@ pub(crate) fn stub_format(_args: std::fmt::Arguments<'_>) -> String {
     String::new()
 }
 
+/// S-utf8: UTF-8 validation is replaced by acceptance in harnesses whose names are concrete ASCII
+/// (std's validator branches on pointer alignment, which triples the cost of every name parse).
+pub(crate) fn stub_from_utf8(v: &[u8]) -> std::result::Result<&str, std::str::Utf8Error> {
+    Ok(unsafe { std::str::from_utf8_unchecked(v) })
+}
+
 pub(crate) fn stub_bt_capture() -> std::backtrace::Backtrace {
     std::backtrace::Backtrace::disabled()
 }
